@@ -27,13 +27,20 @@ mod verif_c18 {
     // @h name=c18_atomic_sequential tier=quick
     #[kani::proof]
     #[kani::unwind(5)]
-    fn c18_atomic_sequential() {
+    fn c18_atomic_sequential() { atomic_seq(4); }
+
+    // @h name=c18_atomic_seq8 tier=thorough timeout=1800
+    #[kani::proof]
+    #[kani::unwind(9)]
+    fn c18_atomic_seq8() { atomic_seq(8); }
+
+    fn atomic_seq(steps: usize) {
         // symbolic sequence of <= 4 operations against a plain usize reference
         let init: usize = kani::any();
         let at = AtomicReloadId::with_value(ReloadId(init));
         let mut reference = init;
         let mut i = 0;
-        while i < 4 {
+        while i < steps {
             let op: u8 = kani::any();
             let v: usize = kani::any();
             match op % 5 {
